@@ -17,7 +17,7 @@ Verdict(t) ==
      ELSE IF Obs(o.inp) # Exp(e.inp1) \/ Obs(o.inp2) # Exp(e.inp2) THEN "meta-filled-input@1"
      ELSE "ok"
   ELSE
-     LET e == Exchange(Proj(c.po), Proj(c.ci)) IN
+     LET e == IF c.via = "sumtime" THEN ExchangeSum(Proj(c.po), Proj(c.ci)) ELSE Exchange(Proj(c.po), Proj(c.ci)) IN
      IF e.res # "ok" THEN (IF o.res = "err:" \o e.res THEN "ok" ELSE "meta-outcome@1")
      ELSE IF o.res # "ok" THEN "meta-outcome@1"
      ELSE IF Obs(o.out) # Exp(e.out) THEN "meta-filled-output@1"
